@@ -22,7 +22,19 @@ def _gen_cpm(rng, size):
             rows.append([0.0] * g)                                   # empty cell: denominator 1
         else:
             rows.append([float(rng.choice([0, 0, 1, 2, 7, 1000])) for _ in range(g)])
-    return dict(data=np.array(rows, dtype=float).reshape(n, g))
+    arr = np.array(rows, dtype=float).reshape(n, g)
+    kind = rng.random()
+    if kind < 0.35 and n > 0:
+        # raw counts in a narrow unsigned type whose row total does not fit that type
+        dt = rng.choice([np.uint8, np.uint16])
+        top = int(np.iinfo(dt).max)
+        arr = np.array([[rng.choice([0, 1, top, top - 1, top // 2 + 1]) for _ in range(g)] for _ in range(n)],
+                       dtype=dt).reshape(n, g)
+        if g >= 2:
+            arr[0, 0], arr[0, 1] = top, top              # row total > max of the dtype
+    elif kind < 0.45:
+        arr = arr.astype(np.int32)
+    return dict(data=arr)
 
 
 contract(
